@@ -9,7 +9,7 @@ META = dict(
     bounds=dict(quick='all coefficients unbounded reals; 50<=T_low<T_mid<T_high<=6000; T inside the range; NASA-9 1-3 segments '
                       '(arbitrary, possibly non-contiguous/unordered bounds for the selection obligations); arrays of length 1-2',
                 thorough='as quick with NASA-9 1-4 segments and arrays of length 1-3'),
-    outside_claim=['arrays longer than 3 (loop body identical per element)', 'integer-dtype temperature containers',
+    outside_claim=['arrays longer than 3 (loop body identical per element)', 'integer temperature containers for NASA-9/Shomate',
                    'IEEE rounding'],
     stubs=[],
     assumptions=['misc_models empty (their summation is C13)'],
@@ -148,12 +148,12 @@ def h_nasa7_obj(ctx, region):
     ctx.eq('dSoR/dT = CpoR/T (public getters)', ctx.deriv(lambda t: sp.get_SoR(T=t), T), Cp / T, info='deriv')
 
 
-def h_nasa7_arr(ctx, n, kind):
+def h_nasa7_arr(ctx, n, kind, ints=False):
     """array evaluation == per-element scalar evaluation (elements may straddle T_mid)"""
     sp, al, ah, Tl, Tm, Th = _nasa7(ctx)
     Ts = []
     for i in range(n):
-        t = ctx.real('T%d' % i, 50, 6000)
+        t = ctx.int('T%d' % i, 50, 6000) if ints else ctx.real('T%d' % i, 50, 6000)
         ctx.assume(Tl <= t)
         ctx.assume(t <= Th)
         Ts.append(t)
@@ -318,6 +318,9 @@ def groups(tier):
     for n in ((1, 2, 3) if th else (1, 2)):
         for kind in ('ndarray', 'list'):
             g.append(dict(name='nasa7/array%d/%s' % (n, kind), harness=h_nasa7_arr, params=dict(n=n, kind=kind)))
+            if n == 1 or th:
+                g.append(dict(name='nasa7/array%d/%s/int-temperatures' % (n, kind), harness=h_nasa7_arr,
+                              params=dict(n=n, kind=kind, ints=True)))
     for ns in ((1, 2, 3, 4) if th else (1, 2, 3)):
         g.append(dict(name='nasa9/select/%dseg' % ns, harness=h_nasa9_select, params=dict(nseg=ns)))
         g.append(dict(name='nasa9/object/%dseg' % ns, harness=h_nasa9_obj, params=dict(nseg=ns)))
